@@ -89,7 +89,7 @@ func execC11(t *testing.T, prog *hx.Program, dec *simrt.Decider, verbose bool) *
 			p := n.srv.metadata.GetPartition(cursorsStream, 0)
 			return p != nil && (p.IsLeader() || p.IsPaused())
 		}
-		if !h.waitFor("cursors-stream", 30*time.Second, ready) {
+		if !h.pollFor("cursors-stream", 30*time.Second, ready) {
 			h.oc.Trouble = "cursors stream not ready"
 			return
 		}
@@ -151,7 +151,7 @@ func execC11(t *testing.T, prog *hx.Program, dec *simrt.Decider, verbose bool) *
 						if prog.Param("nocache", 0) == 1 {
 							n.srv.cursors.disableCache = true
 						}
-						h.waitFor("controller", 60*time.Second, func() bool { return h.controller() != nil && ready() })
+						h.pollFor("controller", 60*time.Second, func() bool { return h.controller() != nil && ready() })
 						restarting = false
 					case "set", "get":
 						key := int(op.Arg(0, 0))
